@@ -87,6 +87,12 @@ type KindIn struct {
 	Kind string `json:"kind"` // ok | err | nosubmitter | noclient
 }
 
+// LatIn: how long a request to relay Addr takes (milliseconds of fake time).
+type LatIn struct {
+	Addr uint64 `json:"addr"`
+	Ms   uint64 `json:"ms"`
+}
+
 type Op struct {
 	Kind     string      `json:"kind"` // round | forward | prepare
 	Dt       uint64      `json:"dt"`   // whole seconds of (fake) time before the operation, >= 1
@@ -103,6 +109,13 @@ type Op struct {
 	// each validator are what it answered when the service asked (recorded, see OpObs.Resolved)
 	// instead of Vals[].Res / Resolve.
 	RealCfg string `json:"real_cfg,omitempty"`
+	// Peers that behave like real clients: a request to a relay / to node k takes that many
+	// milliseconds and is abandoned (nothing is delivered, the context's error is returned) when the
+	// context it was given is cancelled first.  Missing = 0 = answers at once (the context is still
+	// looked at on entry).
+	SignLat  uint64   `json:"sign_lat,omitempty"` // round: every signing request (a remote signer)
+	RelayLat []LatIn  `json:"relay_lat,omitempty"`
+	NodeLat  []uint64 `json:"node_lat,omitempty"` // round: secondary nodes; prepare: preparer nodes
 }
 
 type ValidatorIn struct {
@@ -164,6 +177,9 @@ type OpObs struct {
 	Relays    []RelayObs   `json:"relays,omitempty"`
 	Nodes     []*[]RegObs  `json:"nodes,omitempty"`
 	PrepNodes []*[]PrepObs `json:"prep_nodes,omitempty"`
+	// requests abandoned because their context was cancelled while they were in flight (or before
+	// they started): "relay:<addr>", "node:<k>", "prepnode:<k>"; nothing was delivered to those peers
+	Aborted []string `json:"aborted,omitempty"`
 	// real configuration: what it answered for each of op.Vals (nil = error) and for the keys of
 	// the forwarded registrations
 	Resolved  []*Resolved `json:"resolved,omitempty"`
@@ -304,6 +320,7 @@ type env struct {
 	relays    map[uint64][]RegObs
 	nodes     []*[]RegObs
 	prepNodes []*[]PrepObs
+	aborted   []string
 	problem   string
 	// real configuration of the current operation and what it answered
 	real      *v2.ExecutionConfig
@@ -323,6 +340,48 @@ func (e *env) note(format string, args ...any) {
 	if e.problem == "" {
 		e.problem = fmt.Sprintf(format, args...)
 	}
+}
+
+// transit is the way of a request to a peer that behaves like a real HTTP client: it is not sent
+// on a context that is already cancelled, it takes ms milliseconds, and it is abandoned when the
+// context is cancelled in the meantime.  nil = the request arrived.
+func (e *env) transit(ctx context.Context, what string, ms uint64) error {
+	err := ctx.Err()
+	if err == nil && ms > 0 {
+		t := time.NewTimer(time.Duration(ms) * time.Millisecond)
+		select {
+		case <-ctx.Done():
+			t.Stop()
+			err = ctx.Err()
+		case <-t.C:
+		}
+	}
+	if err != nil {
+		e.mu.Lock()
+		e.aborted = append(e.aborted, what)
+		e.mu.Unlock()
+	}
+	return err
+}
+
+func (e *env) relayLat(addr uint64) uint64 {
+	e.mu.Lock()
+	defer e.mu.Unlock()
+	for _, l := range e.op.RelayLat {
+		if l.Addr == addr {
+			return l.Ms
+		}
+	}
+	return 0
+}
+
+func (e *env) nodeLat(k int) uint64 {
+	e.mu.Lock()
+	defer e.mu.Unlock()
+	if k < len(e.op.NodeLat) {
+		return e.op.NodeLat[k]
+	}
+	return 0
 }
 
 // -- accounts
@@ -442,13 +501,13 @@ func (e *env) kindOf(addr uint64) string {
 
 type regSigner struct{ e *env }
 
-func (s regSigner) SignValidatorRegistration(_ context.Context, acc e2wtypes.Account, reg *builderapi.VersionedValidatorRegistration) (phase0.BLSSignature, error) {
+func (s regSigner) SignValidatorRegistration(ctx context.Context, acc e2wtypes.Account, reg *builderapi.VersionedValidatorRegistration) (phase0.BLSSignature, error) {
 	e := s.e
 	e.mu.Lock()
-	defer e.mu.Unlock()
 	a, ok := acc.(account)
 	if !ok || reg == nil || reg.V1 == nil {
 		e.note("signer called with a foreign account or an empty registration")
+		e.mu.Unlock()
 		return phase0.BLSSignature{}, errors.New("bad request")
 	}
 	so := SigObs{Acct: a.v.Acct, Fee: feeID(reg.V1.FeeRecipient), Gas: reg.V1.GasLimit, Pub: pubID(reg.V1.Pubkey), Stamp: e.stamp(reg.V1.Timestamp)}
@@ -460,7 +519,19 @@ func (s regSigner) SignValidatorRegistration(_ context.Context, acc e2wtypes.Acc
 			good = vi.Sign[k]
 		}
 	}
+	ms := e.op.SignLat
+	e.mu.Unlock()
+	// a remote signer: the request takes time and is abandoned when its context is cancelled; an
+	// abandoned request is a failed one that nobody scripted
+	if err := e.transit(ctx, fmt.Sprintf("sign:%d", a.v.Acct), ms); err != nil {
+		e.mu.Lock()
+		e.reqs = append(e.reqs, ReqObs{SigObs: so, OK: false})
+		e.mu.Unlock()
+		return phase0.BLSSignature{}, err
+	}
+	e.mu.Lock()
 	e.reqs = append(e.reqs, ReqObs{SigObs: so, OK: good})
+	e.mu.Unlock()
 	if !good {
 		return phase0.BLSSignature{}, errors.New("scripted signing failure")
 	}
@@ -484,8 +555,11 @@ type relaySubmitter struct {
 	fail bool
 }
 
-func (r *relaySubmitter) SubmitValidatorRegistrations(_ context.Context, opts *builderapi.SubmitValidatorRegistrationsOpts) error {
+func (r *relaySubmitter) SubmitValidatorRegistrations(ctx context.Context, opts *builderapi.SubmitValidatorRegistrationsOpts) error {
 	e := r.e
+	if err := e.transit(ctx, fmt.Sprintf("relay:%d", r.id), e.relayLat(r.id)); err != nil {
+		return err
+	}
 	e.mu.Lock()
 	defer e.mu.Unlock()
 	if _, dup := e.relays[r.id]; dup {
@@ -526,8 +600,11 @@ func (n *node) IsSynced() bool  { return true }
 
 type regNode struct{ node }
 
-func (n *regNode) SubmitValidatorRegistrations(_ context.Context, regs []*consensusapi.VersionedSignedValidatorRegistration) error {
+func (n *regNode) SubmitValidatorRegistrations(ctx context.Context, regs []*consensusapi.VersionedSignedValidatorRegistration) error {
 	e := n.e
+	if err := e.transit(ctx, fmt.Sprintf("node:%d", n.idx), e.nodeLat(n.idx)); err != nil {
+		return err
+	}
 	e.mu.Lock()
 	defer e.mu.Unlock()
 	if n.idx >= len(e.nodes) {
@@ -555,8 +632,11 @@ func (n *regNode) SubmitValidatorRegistrations(_ context.Context, regs []*consen
 
 type prepNode struct{ node }
 
-func (n *prepNode) SubmitProposalPreparations(_ context.Context, preps []*consensusapiv1.ProposalPreparation) error {
+func (n *prepNode) SubmitProposalPreparations(ctx context.Context, preps []*consensusapiv1.ProposalPreparation) error {
 	e := n.e
+	if err := e.transit(ctx, fmt.Sprintf("prepnode:%d", n.idx), e.nodeLat(n.idx)); err != nil {
+		return err
+	}
 	e.mu.Lock()
 	defer e.mu.Unlock()
 	if n.idx >= len(e.prepNodes) {
@@ -639,14 +719,40 @@ func runInBubble(t *testing.T, in Input) Obs {
 	cfgPresent := true
 
 	var obs Obs
+	prevStart, settled := e.base, e.base
 	for i := range in.Ops {
 		op := &in.Ops[i]
 		dt := op.Dt
 		if dt == 0 {
 			dt = 1
 		}
-		time.Sleep(time.Duration(dt) * time.Second)
+		// operations start on whole seconds, dt seconds after the previous one started (later if the
+		// previous one's requests took longer than that)
+		start := prevStart.Add(time.Duration(dt) * time.Second)
+		for start.Before(settled) {
+			start = start.Add(time.Second)
+		}
+		time.Sleep(time.Until(start))
 		synctest.Wait()
+		prevStart = start
+		// every request of this operation has been answered or abandoned by then, even if they
+		// are all made one after the other
+		var total uint64
+		for _, vi := range op.Vals {
+			// at most one signing request per relay entry (real configurations: at most 4 relays)
+			n := uint64(4)
+			if vi.Res != nil {
+				n = uint64(len(vi.Res.Relays))
+			}
+			total += n * op.SignLat
+		}
+		for _, l := range op.RelayLat {
+			total += l.Ms
+		}
+		for _, ms := range op.NodeLat {
+			total += ms
+		}
+		settled = start.Add(time.Duration(total)*time.Millisecond + 500*time.Millisecond)
 
 		e.mu.Lock()
 		e.op = op
@@ -654,6 +760,7 @@ func runInBubble(t *testing.T, in Input) Obs {
 		e.relays = map[uint64][]RegObs{}
 		e.nodes = make([]*[]RegObs, in.NNodes)
 		e.prepNodes = make([]*[]PrepObs, in.NPrepNodes)
+		e.aborted = nil
 		now := e.stamp(time.Now())
 		e.real, e.resolved, e.fresolved = nil, map[uint64]*Resolved{}, nil
 		if op.RealCfg != "" {
@@ -741,6 +848,7 @@ func runInBubble(t *testing.T, in Input) Obs {
 		default:
 			return Obs{Problem: "unknown operation kind " + op.Kind}
 		}
+		time.Sleep(time.Until(settled))
 		synctest.Wait()
 
 		e.mu.Lock()
@@ -812,6 +920,11 @@ func runInBubble(t *testing.T, in Input) Obs {
 		}
 		oo.Nodes = e.nodes
 		oo.PrepNodes = e.prepNodes
+		oo.Aborted = append([]string{}, e.aborted...)
+		sort.Strings(oo.Aborted)
+		if len(oo.Aborted) == 0 {
+			oo.Aborted = nil
+		}
 		e.mu.Unlock()
 		obs.Ops = append(obs.Ops, oo)
 	}
@@ -895,6 +1008,18 @@ func gVals(in Input, op Op, order []int) string {
 func term(id uint64, in Input, obs Obs) string {
 	ops := make([]string, 0, len(in.Ops))
 	outs := make([]string, 0, len(in.Ops))
+	timing := make([]string, 0, len(in.Ops))
+	for _, op := range in.Ops {
+		rl := make([]string, 0, len(op.RelayLat))
+		for _, l := range op.RelayLat {
+			rl = append(rl, Pair(N(l.Addr), N(l.Ms)))
+		}
+		nl := make([]string, 0, len(op.NodeLat))
+		for _, ms := range op.NodeLat {
+			nl = append(nl, N(ms))
+		}
+		timing = append(timing, App("T", List(rl), List(nl)))
+	}
 	for i, op := range in.Ops {
 		var oo OpObs
 		if i < len(obs.Ops) {
@@ -986,7 +1111,7 @@ func term(id uint64, in Input, obs Obs) string {
 	if obs.Problem != "" {
 		outs = nil // the harness itself saw something impossible: make the case fail loudly
 	}
-	return Record("c_id", N(id), "c_ops", List(ops), "c_outs", List(outs))
+	return Record("c_id", N(id), "c_ops", List(ops), "c_timing", List(timing), "c_outs", List(outs))
 }
 
 func gRelays(rs []RelayObs) string {
@@ -1056,6 +1181,69 @@ func inputTags(in Input) []string {
 		for _, k := range op.Relays {
 			if k.Kind != "ok" {
 				tags = addTag(tags, "relay-"+k.Kind)
+			}
+		}
+		// timing: who is still in flight when a failing peer answers
+		lat := func(k int) uint64 {
+			if k < len(op.NodeLat) {
+				return op.NodeLat[k]
+			}
+			return 0
+		}
+		for _, l := range op.RelayLat {
+			if l.Ms > 0 {
+				tags = addTag(tags, "timed")
+			}
+			if l.Ms >= 1000 {
+				tags = addTag(tags, "slow-peer")
+			}
+		}
+		if op.SignLat > 0 {
+			tags = addTag(tags, "timed")
+			tags = addTag(tags, "signer-takes-time")
+		}
+		for k := range op.NodeLat {
+			if lat(k) > 0 {
+				tags = addTag(tags, "timed")
+			}
+			if lat(k) >= 1000 {
+				tags = addTag(tags, "slow-peer")
+			}
+		}
+		for k, n := range op.Nodes {
+			if n != "err" {
+				continue
+			}
+			for j, m := range op.Nodes {
+				if m == "ok" && lat(k) < lat(j) {
+					if op.Kind == "prepare" {
+						tags = addTag(tags, "prepnode-fails-while-another-in-flight")
+					} else {
+						tags = addTag(tags, "node-fails-while-another-in-flight")
+					}
+				}
+			}
+		}
+		for _, k := range op.Relays {
+			if k.Kind != "err" {
+				continue
+			}
+			var mine uint64
+			for _, l := range op.RelayLat {
+				if l.Addr == k.Addr {
+					mine = l.Ms
+				}
+			}
+			for _, l := range op.RelayLat {
+				other := "ok"
+				for _, k2 := range op.Relays {
+					if k2.Addr == l.Addr {
+						other = k2.Kind
+					}
+				}
+				if other == "ok" && mine < l.Ms {
+					tags = addTag(tags, "relay-fails-while-another-in-flight")
+				}
 			}
 		}
 		if op.RealCfg != "" {
@@ -1153,7 +1341,7 @@ func TestC11(t *testing.T) {
 	zerologger.Logger = zerolog.New(io.Discard)
 	deadlock.Opts.Disable = true
 	col := NewCollector("C11", "Check.C11",
-		"histories of 2-9 operations (registration rounds by the job or the API, REST forwarding, proposal preparations) over 1-6 validators, 0-3 relays with per-relay settings, 0-3 secondary and 1-3 preparation beacon nodes, with settings changing between rounds (A->B->A included) and failing subsets of relays / nodes / signing requests / validators, run on the real block relay and proposal preparer services in a synctest bubble. Non-trivial = at least two rounds did their work, a signature was made and a cached registration was reused; distinct by input text")
+		"histories of 2-9 operations (registration rounds by the job or the API, REST forwarding, proposal preparations) over 1-6 validators, 0-3 relays with per-relay settings, 0-3 secondary and 1-3 preparation beacon nodes, with settings changing between rounds (A->B->A included) and failing subsets of relays / nodes / signing requests / validators; in half of the histories relays and beacon nodes take time (0-250 ms, sometimes seconds; failing ones mostly fast) and abandon a request whose context is cancelled first, as real clients do, and a request counts only when it arrives; run on the real block relay and proposal preparer services in a synctest bubble. Non-trivial = at least two rounds did their work, a signature was made and a cached registration was reused; distinct by input text")
 	col.ShardSize = 100 // the terms are long: about 60 ms per case in coqc
 	n := EnvInt("VERIF_N", 500)
 	thorough := os.Getenv("VERIF_TIER") == "thorough"
@@ -1202,6 +1390,16 @@ func TestC11(t *testing.T) {
 						col.Count("registration:forwarded")
 					}
 				}
+			}
+		}
+		for _, oo := range obs.Ops {
+			for range oo.Aborted {
+				col.Count("request:abandoned")
+			}
+		}
+		for _, tg := range tags {
+			if strings.Contains(tg, "in-flight") || tg == "timed" || tg == "slow-peer" || tg == "signer-takes-time" {
+				col.Count("family:" + tg)
 			}
 		}
 		if obs.Panic != "" {
